@@ -446,3 +446,109 @@ func ruleNonEmptyCreate(c *Ctx) {
 		}
 	}
 }
+
+const textFreshID = "R-C10-fresh-id: every version id given to a key object is the value of the database's object counter read after the counter was incremented for this very assignment (or a parameter that receives such a value at every call site): two different objects — e.g. a key and the object renamed onto it — never carry the same id, so a WATCH taken on the old object sees the change"
+
+func ruleFreshID(c *Ctx) {
+	c.S.Rule("R-C10-fresh-id", textFreshID, 3)
+	fID := c.Field("storeKey", "id")
+	fCtr := c.Field("dataStore", "dataObjectNumber")
+	if fID == nil || fCtr == nil {
+		c.S.Undecided("R-C10-fresh-id", "anchors", "-", "storeKey.id / dataStore.dataObjectNumber not found")
+		return
+	}
+	var freshAt func(v ssa.Value, at ssa.Instruction, depth int) (bool, string)
+	freshAt = func(v ssa.Value, at ssa.Instruction, depth int) (bool, string) {
+		if depth > 3 {
+			return false, "value flow too deep"
+		}
+		for {
+			if cv, ok := v.(*ssa.Convert); ok {
+				v = cv.X
+				continue
+			}
+			break
+		}
+		switch x := v.(type) {
+		case *ssa.UnOp:
+			fa, ok := x.X.(*ssa.FieldAddr)
+			if !ok || fieldOf(fa) != fCtr {
+				return false, "it is not read from the object counter"
+			}
+			// an increment of the counter dominates this read, and no other id assignment lies between them
+			fn := x.Parent()
+			for _, in := range instrsOf(fn) {
+				st, ok := isStoreTo(in, fCtr)
+				if !ok || !instrDominates(in, x) {
+					continue
+				}
+				bo, ok := st.Val.(*ssa.BinOp)
+				if !ok || bo.Op != token.ADD {
+					continue
+				}
+				if k, isC := constInt(bo.Y); !isC || k < 1 {
+					continue
+				}
+				// another id store between the increment and this read would take the same value
+				clash := false
+				for _, in2 := range instrsOf(fn) {
+					if st2, ok := isStoreTo(in2, fID); ok && in2 != at && instrDominates(in, in2) && instrDominates(in2, x) {
+						_ = st2
+						clash = true
+					}
+				}
+				if !clash {
+					return true, ""
+				}
+			}
+			return false, "the counter is read before it is incremented (the id of the newest existing object is handed out again)"
+		case *ssa.Parameter:
+			fn := x.Parent()
+			idx := -1
+			for i, q := range fn.Params {
+				if q == x {
+					idx = i
+				}
+			}
+			node := c.CG.Nodes[fn]
+			if node == nil || idx < 0 || len(node.In) == 0 {
+				return false, "parameter without visible callers"
+			}
+			for _, e := range node.In {
+				cc := e.Site.Common()
+				if cc.IsInvoke() || idx >= len(cc.Args) {
+					return false, "parameter passed through a dynamic call"
+				}
+				if ok, why := freshAt(cc.Args[idx], e.Site, depth+1); !ok {
+					return false, "argument at " + c.Pos(e.Site.Pos()) + ": " + why
+				}
+			}
+			return true, ""
+		}
+		return false, fmt.Sprintf("its origin (%T) is not the object counter", v)
+	}
+	n := 0
+	for _, fn := range c.SrcFuncs() {
+		if _, ex := m6Exempt[fnName(fn)]; ex {
+			continue
+		}
+		k := 0
+		for _, in := range instrsOf(fn) {
+			st, ok := isStoreTo(in, fID)
+			if !ok {
+				continue
+			}
+			k++
+			n++
+			key := fmt.Sprintf("%s:id#%d", fnName(fn), k)
+			if ok, why := freshAt(st.Val, in, 0); ok {
+				c.S.OK("R-C10-fresh-id", key, c.Pos(st.Pos()), "the id is the counter's value after its increment")
+			} else {
+				c.S.Bad("R-C10-fresh-id", key, c.Pos(st.Pos()), fmt.Sprintf("%s assigns a version id that is not freshly allocated: %s — EXEC does not notice that the watched key was replaced", fnName(fn), why))
+			}
+		}
+	}
+	if n == 0 {
+		c.S.Undecided("R-C10-fresh-id", "sites", "-", "no assignment of storeKey.id found")
+	}
+}
